@@ -59,8 +59,9 @@ RowsClause(e) ==
   IF e.err # "" THEN "exception:" \o e.err
   ELSE IF Len(e.ids) # e.n THEN "grid does not have N rows"
   ELSE IF ~PrefixRel(e.ids, known) THEN "grid is not a prefix of / prefixed by the other sizes of the same algorithm"
-  ELSE IF Len(e.poly) > 0 /\ ~IsPrefix(e.ids, e.poly) THEN "grid is not the first N index-ordered (canonical-half) polytope nodes"
   ELSE "ok"
+(* mechanism, advisory only: a polytope grid is the first N index-ordered (canonical-half) polytope nodes *)
+RowsFromPolytope(e) == Len(e.poly) = 0 \/ IsPrefix(e.ids, e.poly)
 
 (* separation bounds, computed without overflow: largest x (in 1e-3) with x^2 N <= 10^6, resp. x^3 <= 216*10^6 / N *)
 Bound3(n) == CHOOSE x \in 0 .. 1000 : x * x * n <= 1000000 /\ (x = 1000 \/ (x + 1) * (x + 1) * n > 1000000)
@@ -105,6 +106,7 @@ Step == /\ l <= Len(Log)
            \/ Ev.ev = "Get" /\ Check(GetClause(Ev)) /\ UNCHANGED <<fresh, rows>>
            \/ Ev.ev \in {"UserSeed", "UserDraw", "Drop"} /\ UNCHANGED <<fresh, rows>>
            \/ Ev.ev = "Rows" /\ Check(RowsClause(Ev)) /\ UNCHANGED fresh
+                             /\ (IF Ev.err = "" /\ ~RowsFromPolytope(Ev) THEN PrintT(<<"ADVISORY", Ev.tid, "grid is not the first N index-ordered polytope nodes", l>>) ELSE TRUE)
                              /\ rows' = IF Ev.err = "" /\ RowsClause(Ev) = "ok"
                                         THEN (Ev.alg :> Longer(Ev.ids, IF Ev.alg \in DOMAIN rows THEN rows[Ev.alg] ELSE <<>>)) @@ rows
                                         ELSE rows
